@@ -272,7 +272,8 @@ class Gen:
         r = self.r
         args = cfgd["args"]
         n = len(args)
-        chosen = [i for i in range(1, n + 1) if not args[i - 1]["depr"] and (args[i - 1]["mand"] or r.random() < 0.5)]
+        chosen = [i for i in range(1, n + 1) if not args[i - 1]["depr"] and args[i - 1]["kind"] not in ("argfile", "sub")
+                  and (args[i - 1]["mand"] or r.random() < 0.5)]
         # handler constraints
         for h in cfgd["hcons"]:
             S_ = h["args"]
@@ -525,7 +526,7 @@ def to_words(ws):
 
 def eval_action(argv_words, mode="handler", pre=None, tag=None, **kw):
     d = {"n": "Eval", "mode": mode, "presrc": "none", "filetext": [], "envstr": [], "argv": to_words(argv_words), "cmd": [],
-         "tag": tag or {"k": "none"}}
+         "files": [], "tag": tag or {"k": "none"}}
     d.update(kw)
     return d
 
